@@ -48,6 +48,9 @@ type ccRound struct {
 	Clients       []string `json:"clients"`
 	Wrap          bool     `json:"wrappers"`
 	Seed          int64    `json:"seed"`
+	// FileBackend: the listener's storage is the file back end (only in rounds whose handshakes read and never
+	// write: honest and refused authentications)
+	FileBackend bool `json:"file_back_end,omitempty"`
 }
 
 // rendezvous lets up to n goroutines meet; stragglers are released by a
@@ -121,7 +124,12 @@ type ccClient struct {
 func runCCRound(c *engine.Ctx, rd ccRound) {
 	r := c.R
 	rng := mrand.New(mrand.NewSource(rd.Seed))
-	s := world.MustServer(world.ServerCfg{Backend: world.Inmem, StorageWrap: rd.Wrap, RegWrap: true})
+	be := world.Inmem
+	if rd.FileBackend {
+		be = world.File
+		r.Count("rounds_on_the_file_back_end", 1)
+	}
+	s := world.MustServer(world.ServerCfg{Backend: be, StorageWrap: rd.Wrap, RegWrap: true})
 	defer s.Close()
 	// option slice of chosen length and spare capacity
 	base := s.Opts()
@@ -565,6 +573,12 @@ func runConcurrent(c *engine.Ctx) engine.Result {
 			// listener or anywhere in the process) must not reach the honest connections of this or a later round
 			rd.Clients = []string{"forged", "forged", "auth", "forged", "forged", "forged", "auth", "forged"}
 			rd.Acceptors = 2 + rng.Intn(7)
+			if i%12 == 3 {
+				// the same on the file back end with many acceptors: every handshake of such a round only reads records
+				rd.FileBackend = true
+				rd.Clients = []string{"auth", "forged", "auth", "auth", "forged", "auth", "auth", "forged", "auth", "auth"}
+				rd.Acceptors = 10
+			}
 		case 5:
 			rd.Clients = []string{"malformed", "auth", "malformed", "auth", "malformed", "token", "malformed", "fetch-authorized"}
 			rd.Acceptors = 2 + rng.Intn(3) // few acceptors: rejected and honest handshakes follow each other on the same goroutines
